@@ -665,6 +665,17 @@ def simplify_constrained_range(source: str) -> str:
     # (x for x in range(10) if x > 5) => (x for x in range(6, 10))
     # {y for y in range(18, 99) if y % 2 == 0} => {y for y in range(18, 99, 2)}
 
+    def int_literal(node):
+        # Negative literals are parsed as UnaryOp(USub, Constant)
+        if isinstance(node, ast.UnaryOp) and isinstance(node.op, ast.USub):
+            value = int_literal(node.operand)
+            return None if value is None else -value
+
+        if isinstance(node, ast.Constant) and type(node.value) is int:
+            return node.value
+
+        return None
+
     comprehension_template = ast.comprehension(
         iter=ast.Call(func=ast.Name(id="range"), keywords=[]), target=ast.Name(id=str)
     )
@@ -687,32 +698,25 @@ def simplify_constrained_range(source: str) -> str:
         else:
             continue
 
-        if core.match_template(args[0], ast.Constant(value=int)):
-            start = args[0].value
-        else:
-            start = None
-
-        if core.match_template(args[1], ast.Constant(value=int)):
-            stop = args[1].value
-        else:
-            stop = None
-
-        if core.match_template(args[2], ast.Constant(value=int)):
-            step = args[2].value
-        else:
-            step = None
+        # Bounds that are not int literals are unknown (None): they are never compared or replaced.
+        start = int_literal(args[0])
+        stop = int_literal(args[1])
+        step = int_literal(args[2])
+        if step is None or step <= 0:
+            continue  # Unknown, reversed or invalid progression
 
         target_name = comp.target.id
 
-        conditions = set()
-        ifs = comp.ifs.copy()
+        # The clauses below depend on the order they are applied in, so keep the source order.
+        conditions = []
+        ifs = comp.ifs[::-1]
         while ifs:
             condition = ifs.pop()
             if core.match_template(condition, ast.BoolOp(op=ast.And())):
-                ifs.extend(condition.values)
+                ifs.extend(condition.values[::-1])
                 continue
 
-            conditions.add(condition)
+            conditions.append(condition)
 
         gt_template = (
             ast.Compare(
@@ -751,90 +755,76 @@ def simplify_constrained_range(source: str) -> str:
         ),)
         templates = (gt_template, lt_template, gte_template, lte_template, eq_template)
 
-        if core.match_template(step, ast.Constant(value=int)) and step.value < 0:
-            continue
-
-        redundant_conditions = set()
+        redundant_conditions = []
+        infeasible = False
         for condition in core.filter_nodes(conditions, templates):
             if isinstance(condition.left, ast.Constant):
                 comparator = condition.left
             else:
                 comparator = condition.comparators[0]
 
+            value = comparator.value
+            if type(value) is not int:  # floats, strings, bools...
+                continue
+
             if core.match_template(condition, gt_template):
-                if start is None or comparator.value > start:
-                    start = comparator.value + 1
-                    redundant_conditions.add(condition)
+                if start is not None and value > start:
+                    # First element of the progression that is > value
+                    start = value + 1 + (start - value - 1) % step
+                    redundant_conditions.append(condition)
 
             elif core.match_template(condition, lt_template):
-                if stop is None or comparator.value <= stop:
-                    stop = comparator.value
-                    redundant_conditions.add(condition)
+                if stop is not None and value <= stop:
+                    stop = value
+                    redundant_conditions.append(condition)
 
             elif core.match_template(condition, gte_template):
-                if start is None or comparator.value >= start:
-                    start = comparator.value
-                    redundant_conditions.add(condition)
+                if start is not None and value >= start:
+                    # First element of the progression that is >= value
+                    start = value + (start - value) % step
+                    redundant_conditions.append(condition)
 
             elif core.match_template(condition, lte_template):
-                if stop is None or comparator.value <= stop:
-                    stop = comparator.value + 1
-                    redundant_conditions.add(condition)
+                if stop is not None and value < stop:
+                    stop = value + 1
+                    redundant_conditions.append(condition)
 
             elif core.match_template(condition, eq_template):
-                changes = False
-                if start is None or comparator.value >= start:
-                    start = comparator.value
-                    changes = True
-                elif comparator.value < start:  # Infeasible
-                    start = stop = 0
+                if start is not None and (value < start or (value - start) % step != 0):
+                    infeasible = True  # Before the start, or between two elements
+                    break
 
-                if stop is None or comparator.value < stop:
-                    stop = comparator.value + 1
-                    changes = True
-                elif comparator.value >= stop:  # Infeasible
-                    start = stop = 0
+                if stop is not None and value >= stop:
+                    infeasible = True
+                    break
 
-                if changes:
-                    redundant_conditions.add(condition)
+                if start is not None and stop is not None:
+                    start = value
+                    stop = value + 1
+                    redundant_conditions.append(condition)
 
-        if stop is not None and start >= stop:
+        if infeasible or (start is not None and stop is not None and start >= stop):
             new_comp = ast.comprehension(
                 target=comp.target, iter=ast.Tuple(elts=[]), ifs=[], is_async=comp.is_async
             )
             yield node, type(node)(generators=[new_comp], elt=node.elt)
+            continue
 
         if not redundant_conditions:
             continue
 
-        if start == 0:
-            start = None
-
-        if step == 1:
-            step = None
-
         for condition in redundant_conditions:
             yield condition, ast.Constant(value=True, kind=None)
 
-        if start is not None and step is not None:
-            yield comp.iter, ast.Call(
-                func=ast.Name(id="range"),
-                args=[
-                    ast.Constant(value=start, kind=None),
-                    ast.Constant(value=stop, kind=None),
-                    ast.Constant(value=step, kind=None),
-                ],
-                keywords=[],
-            )
+        # Unknown bounds keep their original expression
+        new_args = [
+            args[0] if start is None else ast.Constant(value=start, kind=None),
+            args[1] if stop is None else ast.Constant(value=stop, kind=None),
+            ast.Constant(value=step, kind=None),
+        ]
+        if step == 1:
+            new_args.pop()
+            if start == 0:
+                new_args.pop(0)
 
-        elif start is not None:
-            yield comp.iter, ast.Call(
-                func=ast.Name(id="range"),
-                args=[ast.Constant(value=start, kind=None), ast.Constant(value=stop, kind=None)],
-                keywords=[],
-            )
-
-        else:
-            yield comp.iter, ast.Call(
-                func=ast.Name(id="range"), args=[ast.Constant(value=stop, kind=None)], keywords=[]
-            )
+        yield comp.iter, ast.Call(func=ast.Name(id="range"), args=new_args, keywords=[])
